@@ -1,9 +1,9 @@
 package checks
 
 import (
-	"os"
 	"errors"
 	"fmt"
+	"os"
 	"sort"
 	"strings"
 
@@ -153,7 +153,7 @@ func bp(b bool) *bool { return &b }
 type probeResult struct {
 	res   string // canonical rendering of the answer
 	err   error
-	wrote bool // the API call is a write operation
+	wrote bool   // the API call is a write operation
 	disk  uint64 // digest of the durable contents after the fault-free execution (dry run only)
 }
 
